@@ -585,11 +585,11 @@ def h_p2_zero(E, cfg):
         init = (None if w is None else cp(w), [cp(A), cp(B), cp(C)])
     try:
         res = run_p2(T, R, init, 0)
+        got = dense_parafac2(res.weights, res.factors, res.projections)
     except Exception as e:
         undefined_path(E, e)
         E.prove("zero_budget/no_exception", False, detail=f"{type(e).__name__}: {e}")
         return
-    got = dense_parafac2(res.weights, res.factors, res.projections)
     E.prove("zero_budget/dense_equals_init", [eq_all(E, g, x) for g, x in zip(got, want)] + [len(got) == len(want)])
 
 
